@@ -179,6 +179,15 @@ def flpGen (S : List Nat) (C b : List Basis) (addConst : Bool) : List CRow × Na
   let st := genRun S S.length 2 (flpSetup C b addConst)
   (st.rows ++ flpFinalRows (flpPhi C addConst) st.finals, st.ncols)
 
+/-- a constant as a basis function: ones over the first state factor -/
+def onesBasis (S : List Nat) : Basis := ⟨[0], List.replicate (S.getD 0 0) 1⟩
+
+/-- `deleg = true`: the source solves (no basis, constant basis requested) by calling itself with the single basis `onesBasis`
+    and no constant (fixes/C15-4; the flag comes from the translator).  `deleg = false`: the code as first written, where the
+    constant is then carried by no rule (finding C15-flp-const-without-basis). -/
+def flpGenD (deleg : Bool) (S : List Nat) (C b : List Basis) (addConst : Bool) : List CRow × Nat :=
+  if deleg && addConst && C.isEmpty then flpGen S [onesBasis S] b false else flpGen S C b addConst
+
 /-! ## Factored::MDP::LinearProgramming::solveLP -/
 
 def isZeroSmall (q : Rat) : Bool := decide (absQ q ≤ AITB.Gen.equalToleranceSmall)
@@ -255,29 +264,25 @@ def nodupB : List Nat → Bool
 /-- no column is written twice: the sparse sum `lhs` and the dense row agree -/
 def CRow.cleanB (r : CRow) : Bool := nodupB (r.ent.map (·.1))
 
-/-- the model of `backProject(ddn, basis)`: tags by `merge`, values by enumeration -/
-def unionKeys (a b : List Nat) : List Nat := (mergePF (a.map (fun k => (k, 0))) (b.map (fun k => (k, 0)))).map (·.1)
+/-- `backProject(ddn, basis)`: C14's model of the library routine (`AITB.Factored.backProject`, proved there to be the
+    exact expectation), with the value matrix read row-major as the harness emits it -/
+def bpModel (S A : List Nat) (ddn : List DNode) (hk : Basis) : BasisM :=
+  let b := AITB.Factored.backProject (toGraph S A ddn) (toT ddn) ⟨hk.tag, hk.vals⟩
+  ⟨b.tag, b.atag, b.vals.flatten⟩
 
-def bpTags (ddn : List DNode) (tag : List Nat) : List Nat × List Nat :=
-  tag.foldl (fun (acc : List Nat × List Nat) d =>
-    let nd := ddn.getD d ⟨[], [], []⟩
-    (nd.parents.foldl unionKeys acc.1, unionKeys acc.2 nd.agents)) ([], [])
+/-- rows of a row-major value list: `k` rows of `n` entries -/
+def chunkN (n : Nat) : Nat → List Rat → List (List Rat)
+  | 0, _ => []
+  | k+1, l => l.take n :: chunkN n k (l.drop n)
 
-/-- full assignment that carries `vals` at `keys` and 0 elsewhere -/
-def scatter (n : Nat) (keys vals : List Nat) : List Nat :=
-  (List.range n).map (fun i => match (keys.zip vals).find? (fun p => p.1 == i) with | some p => p.2 | none => 0)
+/-- a parsed BasisMatrix (row-major values) as C14's `BM` (list of rows) -/
+def toBM (S A : List Nat) (b : BasisM) : BM := ⟨b.tag, b.atag, chunkN (spacePartial b.atag A) (spacePartial b.tag S) b.vals⟩
+def ofBM (b : BM) : BasisM := ⟨b.tag, b.atag, b.vals.flatten⟩
+def toBF (hk : Basis) : BF := ⟨hk.tag, hk.vals⟩
 
-def backProject1 (S A : List Nat) (ddn : List DNode) (hk : Basis) : BasisM :=
-  let t := bpTags ddn hk.tag
-  let sizeS := spacePartial t.1 S
-  let sizeA := spacePartial t.2 A
-  let sub := ddn.zipIdx.filter (fun p => hk.tag.contains p.2)
-  let vals := (List.range (sizeS * sizeA)).map (fun i =>
-    let s := scatter S.length t.1 (toFactors (sel t.1 S) (i / sizeA))
-    let a := scatter A.length t.2 (toFactors (sel t.2 A) (i % sizeA))
-    sumQ ((List.range (spacePartial hk.tag S)).map (fun r =>
-      let s1 := scatter S.length hk.tag (toFactors (sel hk.tag S) r)
-      hk.vals.getD r 0 * sub.foldl (fun acc p => acc * p.1.prob S A s a (s1.getD p.2 0)) 1)))
-  ⟨t.1, t.2, vals⟩
+/-- the Q-function `LinearProgramming::operator()` returns, as the code computes it from the weights `v` it got from the LP:
+    `g = backProject(T, h);  g *= discount * v;  plusEqual(S, A, g, R)`  (C14's models of the three library routines) -/
+def qModel (S A : List Nat) (ddn : List DNode) (γ : Rat) (h : List Basis) (R : List BasisM) (v : List Rat) : FM :=
+  fmPlusEqualFM S A (fmScaleW (v.map (γ * ·)) (backProjectFV (toGraph S A ddn) (toT ddn) (h.map toBF))) (R.map (toBM S A))
 
 end AITB.FLP
